@@ -16,7 +16,7 @@ from .c01 import lex_spans
 PROP = "C11"
 
 VARS = ('a = 1; s = "str"; d = 2.5; b = raw("b"); t = tab(3, 1); r = tup(1, "x"); $k = 5; n = null; tt = tab(2, tab(2, 0)); ty:integer; e = 0; i = 0; '
-        'tq = tab(2, tup(1, "x")); rq = tup(3, "r");')
+        'tq = tab(2, tup(1, "x")); rq = tup(3, "r"); $tk = tab(2, 1); $rk = tup(1, "a"); $sk = "s";')
 FUNS = ('function f1(x) return integer is begin return x + 1; end;\n'
         'function f2(x, y) return integer is begin return x * y; end;\n'
         'function f2(x) return integer is begin return -x; end;\n'
@@ -56,6 +56,9 @@ QS = [
     'tq = tup(1, "x", 2.5); rq = tab(2, tup(5, "w"));',
     'tq = tab(1, tab(1, tup(1, "x"))); rq = tup("s", 1);',
     'if a > 100 then tq = 5; rq = "s"; r = tab(1, tup(1, "x")); end if;',
+    # type-safe variables assigned a value of the same major type and another structure
+    '$tk = tab(1, tab(1, "s")); $rk = tup("z", 2.5, 1);',
+    '$tk = tab(1, "s"); $rk = tup(2, "b");',
 ]
 POISON = [")", "end", ";", '"unterminated', "@", "1x", "loop", "=", "nosuchname", "then"]
 DIRECT_R = ["import nosuchmodule;", 'include "/nonexistent/file.bloc";', "a = nosuch + 1;", "f1();", "f9(1);", "t.nosuch(1);", "a = 1 +;", "$k = \"s\";",
@@ -69,7 +72,7 @@ PROBES = ('print a s d $k isnull(n) typeof(ty) r@1 r@2 t.count() tt.count() b.co
           't.concat(42); tt.at(0).put(0, 7); r.set@1(11); s.concat("?"); b.concat(1); print t.at(t.count() - 1) tt.at(0).at(0) r@1 s b.count();\n'
           'a = "retyped"; d = "retyped"; n = 5; e = "s"; i = "s"; print a d n e i;\n'
           '$k = 77; print $k;\n'
-          'tq.at(0).set@2("y"); rq.set@2("s"); tq.concat(tup(9, "z")); print tq.at(0)@2 tq.count() tq.at(2)@1 rq@2 rq@1;\n')
+          '$tk.concat(5); $rk.set@2("c"); print $tk.count() $tk.at(0) $rk@1 $rk@2 $sk; tq.at(0).set@2("y"); rq.set@2("s"); tq.concat(tup(9, "z")); print tq.at(0)@2 tq.count() tq.at(2)@1 rq@2 rq@1;\n')
 FPROBES = ('print f1(1) f2(2, 3) f2(4) fr(4) f3();\n'
            'function f1(x) return integer is begin return x + 1000; end; print f1(1) f2(2, 3) f2(4) fr(4) f3();\n'
            'function zlast() return integer is begin return 5; end; print zlast();\n')
